@@ -68,7 +68,7 @@ def main():
             lines = [l for l in c.stdout.splitlines() if l.startswith(("VIOLATION", "KNOWN-FINDING", "  broken", "  failing input", "  spec", "  implementation"))]
             res["checks"][p] = {"exit": c.returncode, "lines": [l[:300] for l in lines][:8]}
     finally:
-        sh("git -C /repo checkout -- .")
+        sh("git -C /repo checkout -- . && git -C /repo clean -fdq -- src")
         sh("git -C /repo status --porcelain")
     valid = res["demo_clean_exit"] == 0 and res["demo_patched_exit"] != 0 and res["tests_unchanged"]
     res["valid_seed"] = valid
